@@ -33,6 +33,7 @@ type c12Query struct {
 	Trace   string // output written before each answer (one char per answer), if any
 	Setup   string // program text consulted before the query
 	NoVar   int    // the query has no variable and this many answers
+	NoSide  bool   // generator without the side-effect goals (pairs family)
 	Gen     bool   // generator family: the answers are discovered by one sequential run to exhaustion
 	vals    []string
 	known   bool
@@ -72,12 +73,45 @@ var c12VarRe = regexp.MustCompile(`_[0-9]+`)
 
 const c12GenSetup = ":- dynamic(p/1). :- dynamic(seen/1). p(1). p(2). p(3). gen --> [1] ; [2] ; [3]. rec(1). rec(X) :- rec(Y), X is Y + 1."
 
+// c12Pairs: the SAME nondeterministic built-in on different data in two Solutions of one interpreter that are iterated in
+// an interleaved fashion: each sees the answers it sees alone.
+var c12Pairs = [][2]string{
+	{"sub_atom(abcde, _, 2, _, X).", "sub_atom(vwxyz, _, 2, _, X)."},
+	{"sub_atom(abcde, X, _, 0, _).", "sub_atom(vw, X, _, 0, _)."},
+	{"atom_concat(X, _, abc).", "atom_concat(X, _, xyz)."},
+	{"between(1, 4, X).", "between(11, 14, X)."},
+	{"member(X, [1, 2, 3, 4]).", "member(X, [a, b, c, d])."},
+	{"nth0(_, [1, 2, 3, 4], X).", "nth0(_, [a, b, c, d], X)."},
+	{"nth1(X, [a, b, c, d], _).", "nth1(X, [a, b], _)."},
+	{"atom_chars(abcd, L), member(X, L).", "atom_chars(wxyz, L), member(X, L)."},
+	{"atom_codes(abcd, L), member(X, L).", "atom_codes(wxyz, L), member(X, L)."},
+	{"select(X, [1, 2, 3, 4], _).", "select(X, [a, b, c, d], _)."},
+	{"append(_, [X|_], [1, 2, 3, 4]).", "append(_, [X|_], [a, b, c, d])."},
+	{"bagof(Y, member(Y-X, [a-1, b-2, c-3, d-4]), _).", "bagof(Y, member(Y-X, [a-5, b-6, c-7, d-8]), _)."},
+	{"findall(Y, member(Y, [1, 2, 3, 4]), L), member(X, L).", "findall(Y, member(Y, [a, b, c, d]), L), member(X, L)."},
+	{"clause(p(X), true).", "p(X)."},
+	{"current_op(X, xfx, is).", "current_op(X, yfx, +)."},
+	{"sort([d, c, b, a], L), member(X, L).", "sort([4, 3, 2, 1], L), member(X, L)."},
+	{"number_codes(X0, \"12\"), between(X0, 15, X).", "number_codes(X0, \"42\"), between(X0, 45, X)."},
+	{"atom_length(abc, N), between(1, N, X).", "atom_length(abcdefg, N), between(5, N, X)."},
+	{"phrase(gen, [X]).", "phrase(gen, [_, X|_])."},
+	{"catch(member(X, [1, 2, 3, 4]), _, true).", "catch(member(X, [a, b, c, d]), _, true)."},
+}
+
+var c12PairBase int
+
 func init() {
+	c12PairBase = -1
 	for _, g := range c12Generators {
 		// two side effects in both orders: one that the engine performs at once (a database update) and
 		// one that it defers (output)
 		c12Queries = append(c12Queries, c12Query{Name: "gen " + g, Text: g + ", assertz(seen(X)), put_char(t).", Setup: c12GenSetup, Gen: true})
 		c12Queries = append(c12Queries, c12Query{Name: "gen' " + g, Text: g + ", put_char(t), assertz(seen(X)).", Setup: c12GenSetup, Gen: true})
+	}
+	c12PairBase = len(c12Queries)
+	for _, pr := range c12Pairs {
+		c12Queries = append(c12Queries, c12Query{Name: "pair-a " + pr[0], Text: pr[0], Setup: c12GenSetup, Gen: true, NoSide: true},
+			c12Query{Name: "pair-b " + pr[1], Text: pr[1], Setup: c12GenSetup, Gen: true, NoSide: true})
 	}
 }
 
@@ -304,7 +338,7 @@ func c12Run(c *c12Case, prefix []int) ([]string, *vsync.Result) {
 		}
 	}
 	// generator family: exactly one side effect per answer handed out - none run ahead, none after Close
-	if mb == nil && ma.q.Gen && !r.Deadlock {
+	if mb == nil && ma.q.Gen && !ma.q.NoSide && !r.Deadlock {
 		if want := strings.Repeat("t", ma.trueNexts); out.String() != want {
 			o.bad("the goal after the generator ran %d times for %d answers handed out", out.Len(), ma.trueNexts)
 		}
@@ -467,7 +501,7 @@ func c12Work(w *h.W) {
 		genHist = append(genHist, "NNNNNNC", "NENC", "NNCC", "SNC", "NNNNNNNE")
 	}
 	for qi := range c12Queries {
-		if !c12Queries[qi].Gen {
+		if !c12Queries[qi].Gen || c12Queries[qi].NoSide {
 			continue
 		}
 		for _, hist := range genHist {
@@ -488,6 +522,46 @@ func c12Work(w *h.W) {
 			w.Traces(1)
 			w.Nontrivial(fmt.Sprintf("%d:%s", qi, hist))
 			w.Outcome("gen:" + strings.Join(ks, ","))
+		}
+	}
+	// (d) the same built-in on different data in two Solutions, iterated in every interleaved order of 3 Next+Scan each
+	for pi := range c12Pairs {
+		qa, qb := c12PairBase+2*pi, c12PairBase+2*pi+1
+		ha, hb := "NSNSNSC", "NSNSNSC"
+		var merges []string
+		var mg func(a, b int, cur string)
+		mg = func(a, b int, cur string) {
+			if a == 3 && b == 3 {
+				merges = append(merges, cur)
+				return
+			}
+			if a < 3 {
+				mg(a+1, b, cur+"a")
+			}
+			if b < 3 {
+				mg(a, b+1, cur+"b")
+			}
+		}
+		mg(0, 0, "")
+		for _, m := range merges {
+			if !w.Mine() {
+				continue
+			}
+			if w.Expired() {
+				return
+			}
+			// every step of the merge stands for one Next+Scan of that iterator; both are closed at the end
+			full := ""
+			for _, ch := range m {
+				full += string(ch) + string(ch)
+			}
+			full += "ab"
+			c := &c12Case{Query: qa, Query2: qb, History: ha, History2: hb, Merge: full, Bound: 1}
+			finals := c12Explore(w, c, w.Pick(0, 1))
+			w.States(1)
+			w.Traces(1)
+			w.Nontrivial(fmt.Sprintf("pair %d %s", pi, m))
+			w.Outcome(fmt.Sprintf("pair:%d", len(finals)))
 		}
 	}
 	// (b) two iterators on one interpreter, all merges of all pairs of short histories
@@ -591,7 +665,7 @@ func c12Replay(b []byte) (string, string, bool) {
 func init() {
 	h.Register(&h.Check{
 		ID: "C12",
-		Rule: "(a) every call history over {Next, Scan, Err, Close} of length <= L on one Solutions, for 11 query kinds (0..3 answers, an error after 0, 1, 2 answers, an infinite generator, three queries without any variable whose answers carry the empty environment; two of them write a character before each answer) - executed on the REAL interpreter.go/solutions.go whose channel operations and go statement are mechanically routed through a scheduler shim, under every interleaving of the consumer and the search goroutine with at most P preemptions; histories are walked breadth-first and keyed by (sequential model state, final scheduler-visible state of the goroutine over all interleavings, last call); (c) generator family: each of 45 nondeterministic control constructs, built-in and library predicates (between, member, nth0/nth1 in both modes, append, select, length, clause, retract, user clauses, current_op, sub_atom, atom_concat, current_prolog_flag, stream_property, call_nth, bagof, setof, catch, call/N, if-then-else, DCG phrase, left recursion, an error after two answers, a partial list, ...) followed by two goals with a visible side effect (a database update, which the engine performs at once, and output, which it defers; both orders), under 10 (thorough: 15) histories that close before the first, after the first, second, third and last answer or never, all interleavings; the answers are discovered by one sequential run to exhaustion, and exactly one side effect of each kind per answer handed out is required; (b) two Solutions of one interpreter: all pairs of histories of length <= L2 over {Next, Scan, Close}, all their merges, all interleavings of the three threads. Non-trivial/distinct = distinct state key / case.",
+		Rule: "(a) every call history over {Next, Scan, Err, Close} of length <= L on one Solutions, for 11 query kinds (0..3 answers, an error after 0, 1, 2 answers, an infinite generator, three queries without any variable whose answers carry the empty environment; two of them write a character before each answer) - executed on the REAL interpreter.go/solutions.go whose channel operations and go statement are mechanically routed through a scheduler shim, under every interleaving of the consumer and the search goroutine with at most P preemptions; histories are walked breadth-first and keyed by (sequential model state, final scheduler-visible state of the goroutine over all interleavings, last call); (c) generator family: each of 45 nondeterministic control constructs, built-in and library predicates (between, member, nth0/nth1 in both modes, append, select, length, clause, retract, user clauses, current_op, sub_atom, atom_concat, current_prolog_flag, stream_property, call_nth, bagof, setof, catch, call/N, if-then-else, DCG phrase, left recursion, an error after two answers, a partial list, ...) followed by two goals with a visible side effect (a database update, which the engine performs at once, and output, which it defers; both orders), under 10 (thorough: 15) histories that close before the first, after the first, second, third and last answer or never, all interleavings; the answers are discovered by one sequential run to exhaustion, and exactly one side effect of each kind per answer handed out is required; (d) 20 pairs of queries that run the SAME nondeterministic built-in on different data (sub_atom, atom_concat, between, member, nth0/nth1, select, append, bagof, clause, current_op, ...) in two Solutions of one interpreter, all 20 interleaved orders of three Next+Scan each: each iterator sees the answers it sees alone; (b) two Solutions of one interpreter: all pairs of histories of length <= L2 over {Next, Scan, Close}, all their merges, all interleavings of the three threads. Non-trivial/distinct = distinct state key / case.",
 		Explanation: "state = (iterator model state, scheduler-visible state of channels and goroutine); transition = one call on the real Solutions object executed under the controlled scheduler; 'the call blocks' is the crisp verdict 'no enabled thread while the consumer is inside a call'; a goroutine leak is 'a search goroutine still parked at the end of a history that closed or exhausted its iterator'; 'no goal runs after Close' is checked on the output written by the query",
 		Assumptions: []string{"the rewriter (cmd/vrewrite) is purely syntactic and fails loudly on constructs it does not know; the shim models Go channel semantics (buffered/unbuffered, close) as in DESIGN.md Appendix B", "Scan before the first Next, after a false Next and after Close is unspecified: only termination is checked", "unsynchronised accesses are not visible to a cooperative scheduler: a separate free-running -race pass runs the same histories (C12 race pass)"},
 		Work:        c12Work,
